@@ -421,3 +421,69 @@ Proof.
   destruct (payout_model_lemma w pid j steps2 s2 r2 I2 V2 R2 N2) as [A2 B2].
   specialize (B1 E1). specialize (B2 E2). lia.
 Qed.
+
+(** ** without assuming that the pool exists: from any state in which the farmer holds no stake in pool [pid]
+    (in particular from genesis), for every rule position [j] *)
+Lemma acts_in_nonneg w pid s st : 0 <= acts_in w pid s st.
+Proof. unfold acts_in. destruct (act_of w pid st); [destruct (ok_step s st)|]; lia. Qed.
+
+Lemma acts_hist_nonneg w pid steps : forall s, 0 <= hist_sum (acts_in w pid) s steps.
+Proof. induction steps as [|st steps IH]; simpl; intros s; [lia|]. pose proof (acts_in_nonneg w pid s st). specialize (IH (step_state s st)). lia. Qed.
+
+Lemma rules_grow_length rs rs' : rules_grow rs rs' -> length rs' = length rs.
+Proof. unfold rules_grow. induction 1; simpl; [reflexivity|]. rewrite IHForall2. reflexivity. Qed.
+
+(** the rule position does not exist in the pool: nothing is ever paid or accrued for it *)
+Lemma out_of_range_zero w pid j steps : forall s p,
+  inv s -> Forall valid_step steps -> get pid (pools s) = Some p -> nth_error (p_rules p) j = None ->
+  hist_sum (paid_in w pid j) s steps = 0 /\ hist_sum (fair_in w pid j) s steps = 0.
+Proof.
+  induction steps as [|st steps IH]; simpl; intros s p I Hv Hg Hn; [auto|].
+  inversion Hv; subst. destruct (farmer_view w pid s st p I H1 Hg) as (pb & Hgb & Hgrow & _).
+  assert (nth_error (p_rules pb) j = None) as Hnb.
+  { apply nth_error_None. rewrite (rules_grow_length _ _ Hgrow). apply nth_error_None. exact Hn. }
+  destruct (IH (step_state s st) pb (step_inv _ _ I H1) H2 Hgb Hnb) as [-> ->].
+  assert (rule_j pid j (step_state s st) = None) as Hr' by (unfold rule_j; rewrite Hgb; exact Hnb).
+  assert (rule_j pid j s = None) as Hr by (unfold rule_j; rewrite Hg; exact Hn).
+  unfold paid_in, fair_in, rps_of. rewrite Hr', Hr.
+  split; [destruct (act_of w pid st); [destruct (ok_step s st)|]; lia|lia].
+Qed.
+
+Lemma payout_general_lemma w pid j steps : forall s,
+  inv s -> Forall valid_step steps -> rec_of w pid s = None ->
+  hist_sum (paid_in w pid j) s steps * P18 <= hist_sum (fair_in w pid j) s steps
+  /\ (rec_of w pid (run s steps) = None ->
+      hist_sum (fair_in w pid j) s steps - hist_sum (paid_in w pid j) s steps * P18
+      <= hist_sum (acts_in w pid) s steps * (P18 - 1)).
+Proof.
+  induction steps as [|st steps IH]; intros s I Hv Hrec.
+  - simpl. split; [lia|intros _; lia].
+  - destruct (rule_j pid j s) as [r|] eqn:Hr; [exact (payout_model_lemma w pid j (st :: steps) s r I Hv Hr Hrec)|].
+    destruct (get pid (pools s)) as [p|] eqn:Hg.
+    + (* the pool exists but has no such rule *)
+      assert (nth_error (p_rules p) j = None) as Hn by (unfold rule_j in Hr; rewrite Hg in Hr; exact Hr).
+      destruct (out_of_range_zero w pid j (st :: steps) s p I Hv Hg Hn) as [-> ->].
+      pose proof (acts_hist_nonneg w pid (st :: steps) s). pose proof P18_pos. split; [lia|intros _; nia].
+    + (* the pool does not exist yet *)
+      inversion Hv; subst. cbn [hist_sum run].
+      assert (paid_in w pid j s st = 0 /\ fair_in w pid j s st = 0 /\ rec_of w pid (step_state s st) = None) as (Hp & Hf & Hrec').
+      { assert (l_of w pid s = 0) as Hl by (unfold l_of; rewrite Hrec; reflexivity).
+        assert (rps_of pid j s = 0) as Hr0 by (unfold rps_of; rewrite Hr; reflexivity).
+        destruct (get pid (pools (step_state s st))) as [pb|] eqn:Hgb.
+        - destruct (new_pool_lemma _ _ _ _ Hg Hgb) as (who & lpt & start & ed & rules & -> & _ & Hrs & _).
+          split; [reflexivity|]. split.
+          + unfold fair_in. rewrite Hl. lia.
+          + unfold rec_of. rewrite Hgb. destruct (get w (p_farmers pb)) as [f|] eqn:Ef; [exfalso|reflexivity].
+            pose proof (get_pool_inv _ _ _ (step_inv _ _ I H1) Hgb) as PIb.
+            pose proof (Forall_vals_get _ _ _ _ (pi_pos _ _ PIb) Ef) as Hpos. cbv beta in Hpos.
+            assert (f_locked f <= p_locked pb) as Hle.
+            { rewrite <- (pi_sum _ _ PIb), sum_locked_eq. apply (asum_get_le _ w); [|exact Ef].
+              pose proof (pi_farmers _ _ PIb) as Hfs. unfold vals in Hfs. rewrite Forall_map in Hfs.
+              eapply Forall_impl; [|exact Hfs]. simpl. intros kv [Hx _]. exact Hx. }
+            destruct (new_pool_lemma _ _ _ _ Hg Hgb) as (_ & _ & _ & _ & _ & _ & _ & _ & Hlk & _). lia.
+        - assert (rule_j pid j (step_state s st) = None) as Hr' by (unfold rule_j; rewrite Hgb; reflexivity).
+          split; [unfold paid_in; rewrite Hr'; destruct (act_of w pid st); [destruct (ok_step s st)|]; reflexivity|].
+          split; [unfold fair_in; rewrite Hl; lia|unfold rec_of; rewrite Hgb; reflexivity]. }
+      rewrite Hp, Hf. destruct (IH (step_state s st) (step_inv _ _ I H1) H2 Hrec') as [IHa IHb].
+      pose proof (acts_in_nonneg w pid s st). pose proof P18_pos. split; [lia|]. intros Hend. specialize (IHb Hend). nia.
+Qed.
